@@ -252,7 +252,11 @@ func diffClassesRaw(want, got string, tokenLevelOnly, fine, ignoreTrail bool) []
 	for i < len(A.Toks) && j < len(B.Toks) {
 		a, b := A.Toks[i], B.Toks[j]
 		if a.Text == b.Text {
-			compareGap(left, tokClass(a), a.Lead, b.Lead, fine, gapAdd)
+			ctx := gapContext(A.Toks, i)
+			compareGap(left, tokClass(a), a.Lead, b.Lead, fine, func(class string, detail map[string]any) {
+				detail["context"] = ctx
+				gapAdd(class, detail)
+			})
 			left = tokClass(a)
 			i++
 			j++
@@ -657,4 +661,38 @@ func foldCommentMoves(ds []diffClass, want, got string) []diffClass {
 		out = append(out, diffClass{"comment-moved", det})
 	}
 	return out
+}
+
+// gapContext says where the gap before token i lies: "option value" if some enclosing bracket was opened
+// right after an `=` or a `:` or is a `[`/`<` literal inside one (message literals, array literals),
+// "compact options" if the innermost enclosing bracket is a `[` that is not part of a value, else "declarations".
+func gapContext(toks []sigTok, i int) string {
+	depth := 0
+	innermost := ""
+	for k := i - 1; k >= 0; k-- {
+		switch toks[k].Text {
+		case "}", "]", ")", ">":
+			depth++
+		case "{", "[", "(", "<":
+			if depth > 0 {
+				depth--
+				continue
+			}
+			// an enclosing opener
+			prev := ""
+			if k > 0 {
+				prev = toks[k-1].Text
+			}
+			if prev == "=" || prev == ":" {
+				return "option value"
+			}
+			if innermost == "" {
+				innermost = toks[k].Text
+			}
+		}
+	}
+	if innermost == "[" {
+		return "compact options"
+	}
+	return "declarations"
 }
